@@ -133,6 +133,32 @@ def site_stream(mmv, pkg, shapes=((0, 0), (1, 3)), single_optional=False):
                     j[pn] = list(order)
                     cases.append({"target": sn, "input": j, "kind": "site-hetero", "mmty": "(TRef %s)" % V.q(sn),
                                   "site": "%s.%s:%s:heterogeneous" % (sn, pn, kind)})
+    # open enumerations are unions on the Python side (Union[Enum, base]): the base alternative carries CUSTOM values
+    open_enums = {e["name"]: e for e in mmv.doc["enumerations"] if e.get("supportsCustomValues")}
+    for sn in mmv.S:
+        if sn == "LSPObject" or sn not in pkg["classes"]:
+            continue
+        for pn, p in mmv.flat(sn).items():
+            t, wrap = p["type"], (lambda v: v)
+            if t["kind"] == "array":
+                t, wrap = t["element"], (lambda v: [v, v])
+            elif t["kind"] == "map":
+                t, wrap = t["value"], (lambda v: {"k": v})
+            if not (t["kind"] == "reference" and t["name"] in open_enums):
+                continue
+            e = open_enums[t["name"]]
+            vals = [v["value"] for v in e["values"]]
+            if e["type"]["name"] == "string":
+                customs = ["zz/custom.value", ""] if "" not in vals else ["zz/custom.value"]
+            else:
+                ints = sorted(v for v in vals if isinstance(v, int))
+                customs = [c for c in {max(ints) + 1, ints[0] + ints[-1] if len(ints) > 1 else ints[0] + 7, sum(ints)} if c not in vals and 0 <= c < 2**31]
+            base = mmv.value(mmlib.ref(sn), 0, 0, 0)
+            for cv in customs:
+                j = dict(base)
+                j[pn] = wrap(cv)
+                cases.append({"target": sn, "input": j, "kind": "site", "mmty": "(TRef %s)" % V.q(sn),
+                              "site": "%s.%s:open-enum-custom=%r" % (sn, pn, cv)})
     for r in mmv.doc["requests"]:
         names = pkg["methods"].get(r["method"])
         if not names or not names[1]:
